@@ -8,7 +8,8 @@ pk = sys.argv[2:] or ['./...']
 base = json.load(open('/root/.vp/BASELINE.json'))
 stable = set(base['stable_pass'])
 env = dict(os.environ, GOFLAGS='-mod=mod', GOPROXY='off', GOSUMDB='off')
-env.pop('GOTOOLCHAIN', None)
+env['GOTOOLCHAIN']='local'
+env['PATH']='/root/go/pkg/mod/golang.org/toolchain@v0.0.1-go1.25.11.linux-amd64/bin:'+env['PATH']
 p = subprocess.Popen(['go', 'test', '-json', '-vet=off', '-count=1', '-timeout', '25m'] + pk, cwd=repo, env=env, stdout=subprocess.PIPE, stderr=subprocess.STDOUT, text=True)
 res = {}
 buildfail = []
@@ -23,6 +24,8 @@ for line in p.stdout:
     elif a == 'fail' and not ev.get('Test'):
         buildfail.append(ev.get('Package'))
 p.wait()
+if not res:
+    print('no test events; go test failed to start', file=sys.stderr)
 failed_stable = sorted(k for k, v in res.items() if v == 'fail' and k in stable)
 missing = []
 if pk == ['./...']:
